@@ -56,6 +56,23 @@ void ranOnClasses(const CaseObs& o, std::vector<std::string>& cls) {
 void runC01() {
   const bool th = vrt::thorough();
   const long n = vrt::g_args.getInt("n", th ? 20000 : 480);
+  const long nScript = vrt::g_args.getInt("scripted", th ? 200 : 16);
+  for (long idx = n; idx < n + nScript; ++idx) {
+    if (!vrt::selected(idx)) continue;
+    vrt::Rng r = vrt::caseRng(idx);
+    int N = static_cast<int>(r.range(2, 6));
+    J spec = J().kv("script", "dtor-hint-race").kv("N", N).kv("i", idx - n);
+    vrt::caseBegin(idx, "scripted/dtor-hint-race", spec);
+    vrt::watchdogArm();
+    DtorHintObs ho = runDtorHintScript(N);
+    vrt::watchdogDisarm();
+    if (!ho.reached) vrt::inconclusive(ho.why);
+    commonCountVerdict(ho.c, spec, false);
+    std::vector<std::string> cls{"script:dtor-hint-race"};
+    if (ho.reached) cls.push_back("hint-gate-reached");
+    if (ho.kidRanInDtor) cls.push_back("post-join-drain-ran-a-task");
+    vrt::caseEnd(J().kv("reached", ho.reached).kv("kidRanInDtor", ho.kidRanInDtor).kv("obs", ho.c.json()), ho.reached ? spec.str() : "", cls);
+  }
   for (long idx = 0; idx < n; ++idx) {
     if (!vrt::selected(idx)) continue;
     vrt::Rng r = vrt::caseRng(idx);
@@ -144,23 +161,6 @@ void runC01() {
     s.perturb = r.pick(pert);
     if (r.chance(0.2)) s.futexDelay = 0.2;
     if (r.chance(0.1)) s.futexSpur = 0.05;
-    // shutdown with the central-queue hint race: all workers gated, parents that force-queue children are
-    // queued, the gate opens from inside ~ThreadPool, workers are delayed before clearing the hint
-    if (s.N >= 2 && r.chance(0.3)) {
-      s.hintRace = true;
-      s.perturb = 0;
-      s.gates = s.N;
-      s.gateRelease = 2;
-      Program tail;
-      int np = static_cast<int>(r.range(10, 60));
-      for (int i = 0; i < np; ++i) tail.ops.push_back(mkOp(O_SCHED_FQ, 1, A_KIDS_POOL_FQ, static_cast<uint8_t>(r.range(1, 3)), static_cast<uint16_t>(r.range(40, 250))));
-      if (s.mainProg >= 0) {
-        for (auto& op : tail.ops) s.programs[static_cast<size_t>(s.mainProg)].ops.push_back(op);
-      } else {
-        s.programs.push_back(tail);
-        s.mainProg = static_cast<int>(s.programs.size()) - 1;
-      }
-    }
     std::string gateCls = s.gates ? (s.gateRelease == 2 ? "gated-dtor" : s.gateRelease == 1 ? "gated-late" : "gated-early") : "free";
     std::string key = std::string("dtor/") + sizeClass(s.N) + "/" + (s.mode ? "poll" : "wake") + "/" + gateCls + "/" + (futKids ? "futkids" : anyFut ? "fut" : "nofut");
     J spec = s.json();
@@ -184,7 +184,6 @@ void runC01() {
         }
   doneBulk:
     if (s.mult == 1) cls.push_back("mult1");
-    if (s.hintRace) cls.push_back("hint-race");
     ranOnClasses(o, cls);
     vrt::caseEnd(o.json(), o.ids >= 2 ? spec.str() : "", cls);
   }
@@ -193,6 +192,16 @@ void runC01() {
 // ================================================================== C02
 namespace {
 void genSetProgram(vrt::Rng& r, Program& prog, int N, bool cts, bool allowFutures, long& budget, bool& recursive, bool allowTryWait0) {
+  if (allowFutures && r.chance(0.08)) {
+    // future ping-pong: wait() right after a single set-bound future, many times (is_ready must hold each time)
+    int reps = static_cast<int>(r.range(30, 120));
+    for (int i = 0; i < reps; ++i) {
+      prog.ops.push_back(mkOp(r.chance(0.8) ? O_TS_FUT : O_TS_THEN));
+      prog.ops.push_back(mkOp(O_TS_WAIT));
+    }
+    budget += 2 * reps;
+    return;
+  }
   int segs = static_cast<int>(r.range(1, 4));
   for (int sg = 0; sg < segs; ++sg) {
     int nsub = static_cast<int>(r.range(1, 14));
@@ -262,6 +271,36 @@ void runC02() {
   for (long idx = 0; idx < n; ++idx) {
     if (!vrt::selected(idx)) continue;
     vrt::Rng r = vrt::caseRng(idx);
+    if (r.chance(0.06)) {
+      // ring overflow: all workers held, 5 owners push ring-path bulks up to their load factor (5 per ring
+      // each > 16 slots), so the fall-back from a full per-thread ring to the central queue is taken
+      CaseSpec s;
+      s.N = static_cast<int>(r.range(2, 4));
+      s.mult = 32;
+      s.gates = s.N;
+      s.gateRelease = 1;
+      for (int p = 0; p < 5; ++p) {
+        Program prog;
+        prog.setKind = r.chance(0.7) ? 1 : 3;
+        prog.stealMult = 4;
+        for (int i = 0; i < 6; ++i) prog.ops.push_back(mkOp(O_TS_BULK, static_cast<uint16_t>(s.N), A_NONE, 0, static_cast<uint16_t>(r.range(0, 10))));
+        prog.ops.push_back(mkOp(O_SLEEP, 3000));
+        prog.ops.push_back(mkOp(r.chance(0.5) ? O_TS_WAIT : O_YIELD));
+        s.programs.push_back(prog);
+        s.ext.push_back(p);
+      }
+      J spec = s.json();
+      vrt::caseBegin(idx, "TS/ring-overflow", spec);
+      vrt::watchdogArm();
+      CaseObs o = runCase(s);
+      vrt::watchdogDisarm();
+      barrierVerdict(o, spec);
+      if (o.dup || o.lost) vrt::violation("a task-set task did not run exactly once", J().kv("lost", o.lost).kv("dup", o.dup).kv("obs", o.json()).kv("spec", spec), "count");
+      std::vector<std::string> cls{"ring-overflow", "multi-producer", "bulk", "wait", "dtor-barrier"};
+      ranOnClasses(o, cls);
+      vrt::caseEnd(o.json(), spec.str(), cls);
+      continue;
+    }
     CaseSpec s;
     s.N = static_cast<int>(r.range(0, 9));
     static const int mults[] = {1, 2, 32, 32};
@@ -663,9 +702,9 @@ void runC03() {
       vrt::watchdogDisarm();
       if (!so.reached) vrt::inconclusive(so.why);
       if (so.stranded) {
-        if (sp.kind == SK_PUSH_AFTER_SHRINK) {
+        if (sp.kind != SK_FQ_AFTER_RESIZE0) {
           vrt::violation(
-              "tasks stranded in per-thread rings with index >= the ring count published by a concurrent shrink: neither workers nor the waiter scan them "
+              "tasks stranded in per-thread rings with index >= the ring count published by a concurrent resize: neither workers nor the waiter scan them "
               "(tryWait made no progress over 4000 polls with no body running); wait() spins for ever",
               J().kv("outstanding", so.strandedTasks).kv("ringsNonEmptyBeyond", so.ringsBeyond).kv("polls", so.polls).kv("spec", spec));
         } else {
@@ -757,6 +796,7 @@ void runC08() {
       ScriptObs so = runScript(sp);
       vrt::watchdogDisarm();
       if (!so.reached) vrt::inconclusive(so.why);
+      if (so.stranded) vrt::violation("tasks stranded in rings beyond the published ring count after a scripted resize", J().kv("spec", spec), "stranded", "C03");
       accountingVerdict(so.c, spec);
       if (so.c.dup || so.c.lost || so.c.barrierFails) vrt::violation("scripted resize lost / duplicated a task or broke a wait", J().kv("obs", so.c.json()).kv("spec", spec), "count", "C03");
       std::vector<std::string> cls{std::string("script:") + scriptName(sp.kind), std::string("target:") + sp.targetClass()};
